@@ -82,7 +82,7 @@ Definition sc_spans (c : spans_case) : list span := spans_of (sc_spans_lit c).
 
 Definition check_spans (c : spans_case) : bool :=
   let src := bytes_of (sc_src c) in
-  valid_utf8b src && forallb (span_wfb src) (sc_spans c).
+  valid_utf8b src && spans_wfb src (sc_spans c).
 
 (* for replays: the reference (line, col) of both ends of every span *)
 Definition model_spans (c : spans_case) : list ((nat * nat) * (nat * nat)) :=
